@@ -197,6 +197,27 @@ class CursorInterp:
             gs = [c for c in cands if isinstance(c, ast.Call) and any(t.is_generator for t, _c in self.resolve(c, env))]
             if len(gs) == 1:
                 it = gs[0]
+        if isinstance(it, ast.Call):
+            # a wrapper around one package generator -- itertools (chain.from_iterable(gen()), islice(gen(), n)) or a package generator that
+            # only pairs the items of the generator it is given with something (for x in <parameter>: yield f(x)) -- has that generator's rounds
+            cands = [self._generator_alias(self._unwrap_iter(a), env) for a in it.args]
+            inner = [c for c in cands if isinstance(c, ast.Call) and any(t.is_generator for t, _c in self.resolve(c, env))]
+            if len(inner) == 1:
+                outer = self.resolve(it, env)
+                head = (call_name(it) or "").split(".")[0]
+                ext = not outer and (head in ("chain", "itertools", "islice", "map", "filter") or (call_name(it) or "").startswith("itertools."))
+                passes_through = False
+                if len(outer) == 1 and outer[0][0].is_generator:
+                    g = outer[0][0]
+                    ps = [p for p in g.params if not (g.cls is not None and not g.is_static and p in ("self", "cls"))]
+                    idx = [i for i, c in enumerate(cands) if c is inner[0]][0]
+                    pname = ps[idx] if idx < len(ps) else None
+                    loops_ = [n for n in walk_body(g.node) if isinstance(n, ast.For) and isinstance(n.iter, ast.Name) and n.iter.id == pname]
+                    others = [n for n in walk_body(g.node) if isinstance(n, ast.Call) and isinstance(n.func, ast.Attribute)
+                              and n.func.attr in ("read", "readinto", "seek", "tell")]
+                    passes_through = len(loops_) == 1 and not others
+                if ext or passes_through:
+                    it = inner[0]
         gens, nongens = [], []
         if isinstance(it, ast.Call):
             targets = self.resolve(it, env)
